@@ -14,7 +14,7 @@ EXPLANATION = (
     'locked); R03.c every struct field that carries the Event parameter is a FIFO channel endpoint, and an event travels from its '
     'receive to update by direct moves; R03.d no unsafe block or unsafe impl exists in the runtime crates (the type-level '
     'arguments lean on this); R03.f every run of the executor inside Core::process is followed by a look at the event channel before the call '
-    'returns, so events emitted during a call are applied by that call in emission order; the linear rule of C01 gives "exactly once". Order between events of different tasks is not decided.')
+    'returns, so events emitted during a call are applied by that call in emission order; the linear rule of C01 gives "exactly once"; R03.g a command reports done / ends its stream only when its event and effect queues are empty, so a host never throws away an event a task already emitted. Order between events of different tasks is not decided.')
 
 FIFO_CARRIERS = re.compile(
     r'^(crossbeam_channel::channel::(Sender|Receiver)|crux_core::capability::channel::(Sender|Receiver)|'
@@ -195,6 +195,12 @@ def check(ctx, rep):
                        'not applied by this call, and a later shell event is applied before them')
         else:
             rep.bad('R03.f', 'shape', 'Core::process: expected one event receive and at least one run_all')
+    # R03.g: a hosted command's stream ends only when its event queue was found empty (shared with C07 R07.a / R07.e): an event a task
+    # already emitted is never thrown away by the host that forwards the command's outputs
+    from rules.props import c07
+    rep.rule('R03.g', 'a command reports done / ends its stream only when its event and effect queues are empty, so no emitted event is dropped by its host', floor=3)
+    c07.check_is_done(rep, 'R03.g', core)
+    c07.check_stream_end(rep, 'R03.g', core)
     # R03.d
     for name in ['crux_core', 'crux_http', 'crux_kv', 'crux_time', 'crux_platform']:
         c = ctx.crate('default', name)
